@@ -282,6 +282,67 @@ def oracle_spots(c, shift):
     return [[per_h[k][n] for k in range(len(per_h))] for n in range(N)]
 
 
+def hedger_pl_req(c, shift, first=True):
+    """the whole hedger scenario for the Lean op "hedger_pl" (model `hedgerPL` / `hedgerPortfolio`: market -> features -> module ->
+    hedge -> transpose -> pl, with listed prices = pricer on the underlier's current row, `h.cost` and payoff_fn + clauses), built
+    from the harness's OWN data only: injected rows (rolled by `shift` in the second round), weights, strike, clause, cost rates.
+    Nothing is read back from the implementation."""
+    roll = lambda r: list(r[shift:]) + list(r[:shift])
+    nh = len(c["hedges"])
+    if c["model"] == "naked":
+        feats, model = [["moneyness", False]], {"kind": "naked", "h": nh}
+    elif c["model"] == "identity":
+        feats, model = [[c["view"], False]], {"kind": "identity"}
+    else:
+        if c["model"] == "prev":
+            feats, nin = [["moneyness", False], ["prev_hedge"]], 1 + nh
+        else:
+            feats, nin = [["moneyness", False], ["zeros"], ["ones"]], 3
+        W = [[c["w"][i][j % 3] for j in range(nin)] for i in range(nh)]
+        model = {"kind": "linear", "w": enc_rat(W), "b": enc_rat(c["b"]), "relu": c["model"] == "relu"}
+    paths = []
+    for n in range(c["N"]):
+        und = roll(c["hedges"][0]["spot"][n])
+        hedges = []
+        for i, h in enumerate(c["hedges"]):
+            if i == 0 or h["kind"] == "primary":
+                hedges.append({"kind": "primary", "row": enc_rat(roll(h["spot"][n])), "cost": rat_str(h["cost"])})
+            else:   # listed: the affine pricer on ITS underlier's current row ("self": the derivative's own underlier)
+                row = roll(h["spot"][n]) if h["kind"] == "listed" else und
+                hedges.append({"kind": "listed", "a": rat_str(F(h["a"])), "b": rat_str(F(h["b"])), "row": enc_rat(row),
+                               "cost": rat_str(h["cost"])})
+        market = {"spot": enc_rat(und), "variance": [], "volatility": [],
+                  "listed": enc_rat(und) if c.get("view") == "spot" else [],     # derivative quoted at its underlier's price
+                  "dt": rat_str(F(1 / 250)), "strike": rat_str(F(c["strike"])), "oracle": []}
+        paths.append({"market": market, "hedges": hedges})
+    payoff = {"kind": "lookback" if c["deriv"] == "lookback" else "european", "call": c["deriv"] != "european_put",
+              "strike": rat_str(F(c["strike"]))}
+    return {"op": "hedger_pl", "features": feats, "model": model, "payoff": payoff,
+            "adds": [["cap", ["cap", "1"]]] if c["clause"] else [], "first": first, "paths": paths}
+
+
+def hedger_pl_model(c, which, reply):
+    """(result, exact) of the model for one scenario: result as `run_hedger_case` reports the implementation's, `exact` = float64
+    commits no rounding anywhere (same guard as everywhere in this file, evaluated on the MODEL's prices / hedge / payoff)"""
+    if not isinstance(reply, dict) or "paths" not in reply:
+        return ("bad", reply), False
+    key = "pl" if which == "pl" else "portfolio"
+    vals, exact = [], True
+    cost = [h["cost"] for h in c["hedges"]]
+    for p in reply["paths"]:
+        r = p[key]
+        if "err" in r:
+            return ("err", r["err"]), True
+        if "ok" not in r:
+            return ("bad", r), False
+        vals.append(F(r["ok"]))
+        sp, un = dec_rat(p["spot_unit"]["ok"])
+        z = [F(p["payoff"]["ok"])] if which == "pl" else []
+        exact = exact and exact_sum_ok(terms_for_guard(sp, un, cost) + z, 53) and \
+            all(is_dyadic_fit(x, 40) for r_ in un for x in r_)
+    return ("ok", vals), exact
+
+
 def run_hedger_case(torch, ctx, c, which):
     """two rounds on the SAME hedger / instruments: the injected market, then the same market rolled by one time step and
     re-injected into the same objects (a second simulation followed by a second P&L call)"""
@@ -396,8 +457,13 @@ def check(ctx):
                      key="functional.pl:accepts", detail={"impl": enc_rat(ri[1])})
     # ---------------- hedger level
     reqs, metas = [], []
+    hreqs, hmetas = [], []     # whole-scenario requests for the composed model ("hedger_pl"), one per (scenario, round)
     for _ in range(nhed):
         c = gen_hedger(g, ctx.tier)
+        hidx = {}
+        for rnd, shift in enumerate((0, 1)):
+            hidx[rnd] = len(hreqs)
+            hreqs.append(hedger_pl_req(c, shift))
         for which in ("pl", "portfolio"):
             try:
                 rounds = run_hedger_case(torch, ctx, c, which)
@@ -409,6 +475,7 @@ def check(ctx):
                          key=f"hedger.compute_{which}:raise", detail=repr(e)[:300])
                 continue
             for rnd, st, v, sp, un, cost, pf in rounds:
+              hmetas.append((c, which, rnd, st, v, hidx[rnd], un, pf))
               N, H, T = len(sp), len(sp[0]), len(sp[0][0])
               ok = all(exact_sum_ok(terms_for_guard(s, u, cost), 53) for s, u in zip(sp, un)) and \
                   all(is_dyadic_fit(x, 40) for p in un for r in p for x in r)
@@ -448,12 +515,42 @@ def check(ctx):
         if (st, v) != rm:
             ctx.disagree("hedger_" + which, _small_h(c, which), (st, enc_rat(v) if st == "ok" else v),
                          (rm[0], enc_rat(rm[1]) if rm[0] == "ok" else rm[1]))
+    # the composed model: market -> features -> module -> hedge -> prices / costs / clause-adjusted payoff -> pl, from the
+    # harness's own data, against Hedger.compute_pl / compute_portfolio (exact)
+    try:
+        hreplies = ctx.driver(hreqs)
+    except DriverBroken as e:
+        ctx.ties_broken.append({"kind": "driver", "detail": str(e)[:1500]})
+        hreplies = None
+    if hreplies is not None:
+        for c, which, rnd, st, v, hi, un, pf in hmetas:
+            rm, exact = hedger_pl_model(c, which, hreplies[hi])
+            ctx.stats["hedger_pl_compared"] += 1
+            if rm[0] == "ok" and not exact:
+                ctx.stats["hedger_pl_skipped_inexact"] += 1
+                continue
+            if (st, v) != rm:
+                note = ""
+                if rm[0] == "ok" and st == "ok":       # where the two first part ways (diagnostic only)
+                    mp = hreplies[hi]["paths"]
+                    mun = [dec_rat(p["spot_unit"]["ok"])[1] for p in mp]
+                    if mun != un:
+                        note = "the hedge differs: impl " + json.dumps(enc_rat(un)) + " model " + json.dumps(enc_rat(mun))
+                    elif pf is not None and [F(p["payoff"]["ok"]) for p in mp] != pf:
+                        note = "the payoff differs: impl " + json.dumps(enc_rat(pf)) + " model " + \
+                            json.dumps([p["payoff"]["ok"] for p in mp])
+                    else:
+                        note = "same hedge and payoff: prices, cost rates or the P&L formula differ"
+                ctx.disagree("hedger_pl", _small_h(c, which) | {"round": rnd, "composed_model": True},
+                             (st, enc_rat(v) if st == "ok" else v), (rm[0], enc_rat(rm[1]) if rm[0] == "ok" else rm[1]),
+                             note=("composed model hedgerPL/hedgerPortfolio from the generated data alone; " + note)[:700])
     return ctx.finish(
         rule="functional: random (N,H,T) shapes with dyadic spot/unit/payoff/cost grids sized so float64/float32 commit no rounding; "
              "non-trivial = well-shaped, some cost>0, non-constant prices, positions of both signs, T>=2. "
              "integer-dtype (int64/int32) whole-share positions against floating-point prices included. "
              "hedger: real Hedger (linear/ReLU/prev_hedge/Naked models with dyadic weights, and pass-through modules on a single price-buffer feature) "
              "on injected dyadic buffers with primary and listed hedges, hedge-then-P&L and P&L-first call orders; "
+             "every hedger scenario and round is also run through the composed model `hedgerPL`/`hedgerPortfolio` (op hedger_pl) from the generated data alone; "
              "non-trivial = hedge moves, some cost>0, exactly representable. distinct = sha1 of the canonical case.")
 
 
